@@ -6,7 +6,9 @@ package main
 
 import (
 	"bufio"
+	"bytes"
 	"context"
+	"crypto/tls"
 	"encoding/json"
 	"fmt"
 	"image"
@@ -60,6 +62,7 @@ type Conn struct {
 	Join   bool   `json:"join,omitempty"`   // udp: the Rep+1 repetitions form ONE datagram
 	Remote string `json:"remote,omitempty"` // source ip (default 198.51.100.<n>)
 	SSH    *SSHIn `json:"ssh,omitempty"`    // structured ssh dialogue instead of raw segments
+	TLS    string `json:"tls,omitempty"`    // tls client handshake with this server name, then the segments inside the session
 }
 
 type Scenario struct {
@@ -73,6 +76,8 @@ type Scenario struct {
 	Serial  bool   `json:"serial,omitempty"`  // connections one after the other instead of concurrently
 	Local   string `json:"local,omitempty"`   // destination (local) ip of the connections, default 192.0.2.1
 	HangMs  int    `json:"hang_ms,omitempty"` // how long a handler may go on after its client is gone (default: the job's)
+	Barrier bool   `json:"barrier,omitempty"` // tcp: all connections of a round are accepted first, then all clients write at the same instant
+	Fresh   bool   `json:"fresh,omitempty"`   // every "@@@@@@" in a segment becomes a 6-digit number never used before in this child
 	Reply   bool   `json:"reply,omitempty"`   // the linger ends as soon as the server has answered; replied connections are counted
 	Comment string `json:"comment,omitempty"` // for the replay file only
 }
@@ -114,6 +119,8 @@ func (l *recL) Start(ctx context.Context) error { l.once.Do(func() { close(l.sta
 func (l *recL) Accept() (net.Conn, error)       { return <-l.accept, nil }
 
 var fatalEvents int64
+
+var udpReplies int64
 
 type capCh struct{}
 
@@ -296,9 +303,14 @@ func (c sockConn) Read(b []byte) (int, error) {
 
 // playTCP plays one raw tcp connection; returns true when the server closed its side
 // (its handler returned) within the hang limit.
-func playTCP(local net.IP, port int, remote net.Addr, cn Conn, linger, hang time.Duration, untilReply bool) bool {
+func playTCP(local net.IP, port int, remote net.Addr, cn Conn, linger, hang time.Duration, untilReply bool, ready *sync.WaitGroup, start <-chan struct{}) bool {
 	sc, pc := lab.Pipe(&net.TCPAddr{IP: local, Port: port}, remote)
-	if !inject(sockConn{sc}) {
+	ok := inject(sockConn{sc})
+	if ready != nil {
+		ready.Done()
+		<-start
+	}
+	if !ok {
 		return false
 	}
 	cc := newQconn(pc)
@@ -306,6 +318,19 @@ func playTCP(local net.IP, port int, remote net.Addr, cn Conn, linger, hang time
 	var replyOnce sync.Once
 	if cn.SSH != nil {
 		playSSH(cc, cn.SSH) // the ssh client reads the transport itself
+	} else if cn.TLS != "" {
+		cc.SetDeadline(time.Now().Add(20 * time.Second))
+		tc := tls.Client(cc, &tls.Config{ServerName: cn.TLS, InsecureSkipVerify: true})
+		if err := tc.Handshake(); err == nil {
+			for _, s := range cn.Segs {
+				tc.Write(s)
+			}
+			buf := make([]byte, 512)
+			tc.SetReadDeadline(time.Now().Add(300 * time.Millisecond))
+			if n, _ := tc.Read(buf); n > 0 {
+				replyOnce.Do(func() { close(gotReply) })
+			}
+		}
 	} else {
 		go func() { // drain replies; note the first one
 			buf := make([]byte, 4096)
@@ -371,7 +396,7 @@ func waitHandlers(hang time.Duration) int {
 func playUDP(local net.IP, port int, remote *net.UDPAddr, dgram []byte, hang time.Duration) bool {
 	u := &udpC{DummyUDPConn: &listener.DummyUDPConn{Buffer: append([]byte(nil), dgram...),
 		Laddr: &net.UDPAddr{IP: local, Port: port}, Raddr: remote,
-		Fn: func(b []byte, addr *net.UDPAddr) (int, error) { return len(b), nil }}, closed: make(chan struct{})}
+		Fn: func(b []byte, addr *net.UDPAddr) (int, error) { atomic.AddInt64(&udpReplies, 1); return len(b), nil }}, closed: make(chan struct{})}
 	if !inject(u) {
 		return false
 	}
@@ -417,6 +442,29 @@ func echoProbe() bool {
 
 var remoteSeq int32
 
+var freshSeq int32
+
+var freshMark = []byte("@@@@@@")
+
+// freshen replaces every "@@@@@@" by a number this child has not used yet
+func freshen(cn Conn) Conn {
+	id := []byte(fmt.Sprintf("%06d", atomic.AddInt32(&freshSeq, 1)%1000000))
+	out := cn
+	out.Segs = nil
+	for _, s := range cn.Segs {
+		out.Segs = append(out.Segs, hx.B(bytes.Replace(s, freshMark, id, -1)))
+	}
+	if cn.TLS != "" {
+		out.TLS = string(bytes.Replace([]byte(cn.TLS), freshMark, id, -1))
+	}
+	if cn.SSH != nil {
+		in := *cn.SSH
+		in.User = string(bytes.Replace([]byte(in.User), freshMark, id, -1))
+		out.SSH = &in
+	}
+	return out
+}
+
 func runScenario(sc Scenario, hang time.Duration) RawObs {
 	t0 := time.Now()
 	ob := RawObs{ID: sc.ID}
@@ -425,6 +473,7 @@ func runScenario(sc Scenario, hang time.Duration) RawObs {
 		hx.Fatal("unknown service %q", sc.Svc)
 	}
 	ev0 := atomic.LoadInt64(&fatalEvents)
+	u0 := atomic.LoadInt64(&udpReplies)
 	local := localIP
 	if ip := net.ParseIP(sc.Local); ip != nil {
 		local = ip
@@ -435,6 +484,13 @@ func runScenario(sc Scenario, hang time.Duration) RawObs {
 	var mu sync.Mutex
 	for round := 0; round <= sc.Rounds; round++ {
 		var wg sync.WaitGroup
+		var ready *sync.WaitGroup
+		var start chan struct{}
+		if sc.Barrier && sc.Proto == "tcp" && !sc.Serial {
+			ready, start = &sync.WaitGroup{}, make(chan struct{})
+			ready.Add(len(sc.Conns))
+			go func(r *sync.WaitGroup, st chan struct{}) { r.Wait(); close(st) }(ready, start)
+		}
 		for i, cn := range sc.Conns {
 			ip := net.ParseIP(cn.Remote)
 			if ip == nil {
@@ -442,6 +498,9 @@ func runScenario(sc Scenario, hang time.Duration) RawObs {
 				ip = net.IPv4(10, byte(n>>16), byte(n>>8), byte(n)) // 16M distinct sources: the limiters never refuse
 			}
 			rport := 40000 + (i+round*len(sc.Conns))%20000
+			if sc.Fresh {
+				cn = freshen(cn)
+			}
 			one := func(cn Conn) {
 				defer wg.Done()
 				if sc.Proto == "udp" {
@@ -468,7 +527,7 @@ func runScenario(sc Scenario, hang time.Duration) RawObs {
 					}
 					return
 				}
-				rep := playTCP(local, d.Port, &net.TCPAddr{IP: ip, Port: rport}, cn, time.Duration(sc.Linger)*time.Millisecond, hang, sc.Reply)
+				rep := playTCP(local, d.Port, &net.TCPAddr{IP: ip, Port: rport}, cn, time.Duration(sc.Linger)*time.Millisecond, hang, sc.Reply, ready, start)
 				mu.Lock()
 				ob.Conns++
 				if rep {
@@ -513,6 +572,9 @@ func runScenario(sc Scenario, hang time.Duration) RawObs {
 		ob.Poisoned = true // a stuck handler stays in this process: do not let it blur later scenarios
 	}
 	ob.FatalEvts = int(atomic.LoadInt64(&fatalEvents) - ev0)
+	if sc.Proto == "udp" {
+		ob.Replied = int(atomic.LoadInt64(&udpReplies) - u0) // datagrams written back
+	}
 	ob.Probe = echoProbe()
 	ob.Ms = int(time.Since(t0) / time.Millisecond)
 	return ob
